@@ -226,6 +226,15 @@ where
 
         #[cfg(feature = "autocomplete")]
         args.swap_comps_with(&mut comps);
+
+        // hidden item is not offered by name, but once user is typing a value for it only
+        // this value can be completed, unrelated names can't take its place
+        #[cfg(feature = "autocomplete")]
+        if let Some(comp) = args.comp_mut() {
+            comps.retain(crate::complete_gen::Comp::only_value);
+            comp.extend_comps(comps);
+        }
+
         if let Err(Error(Message::Missing(_))) = res {
             Err(Error(Message::Missing(Vec::new())))
         } else {
